@@ -43,30 +43,93 @@ type E2EPlay struct {
 	Name   string
 	Cfg    string
 	Actors []string
-	Lines  map[string][]string
-	Expect []E2EFile
+	// FinalItem: per actor, the item printed by the SIGHUP handler.
+	FinalItem map[string]int
+	// Immediate: actors whose handler exits right after its last line.
+	Immediate map[string]bool
+	Lines     map[string][]string
+	Expect    []E2EFile
 }
 
-func writeE2E(rng *rand.Rand, dir string, n int) {
+// writeE2E generates the plays.  immediate: every second actor's SIGHUP
+// handler exits right after printing its last line (else all handlers linger
+// 0.3 s, so that the line has certainly been read before the process is gone).
+func writeE2E(rng *rand.Rand, dir string, n int, immediate bool) {
 	g := &Gen{R: rng, Modalities: cmd.VerifModalities()}
 	var plays []E2EPlay
 	for i := 0; i < n; i++ {
-		// several actors with a spotlight each, alternately of one role and
-		// of different roles: every actor prints its OWN lines
-		g.MinActors = 2 + i%2
-		g.ForceRoles = 1 + i%2
-		if i%4 == 3 {
-			g.MinActors, g.ForceRoles = 4, 2
+		// several actors with a spotlight each - of one role, of different
+		// roles, siblings of one `p* play N role` line: every actor prints
+		// its OWN lines
+		switch i % 4 {
+		case 0:
+			g.MinActors, g.ForceRoles, g.ForceMulti = 2, 1, 1
+		case 1:
+			g.MinActors, g.ForceRoles, g.ForceMulti = 3, 2, 2
+		case 2:
+			g.MinActors, g.ForceRoles, g.ForceMulti = 2, 1, 2
+		default:
+			g.MinActors, g.ForceRoles, g.ForceMulti = 4, 2, 1
 		}
 		c := g.Config()
 		c.Auditor = nil // a disappointed auditor fouls the play: keep the exit status meaningful
 		c.Sentinel = true
+		c.WithMe = true
+		for ri := range c.Roles {
+			for si := range c.Roles[ri].Sigs {
+				c.Roles[ri].Sigs[si].NoNoise = true
+			}
+		}
 		nums := map[string]*NumTok{}
 		var items []ItemGen
 		for _, it := range g.Lines(c, 40+rng.Intn(60), nums) {
 			if it.Kind == "line" {
 				items = append(items, it)
 			}
+		}
+		var cast []string
+		for _, r := range c.Roles {
+			cast = append(cast, r.Actors...)
+		}
+		// the sentinel line of every actor (a line like any other: the
+		// whole-line patterns of its role match it)
+		for _, a := range cast {
+			items = append(items, ItemGen{Kind: "line", Line: &LineGen{Actor: a, TsKind: "none", Body: []string{"THE-END"}, Text: "THE-END"}})
+		}
+		// the last word of every actor: printed by its spotlight when it is
+		// told to stop (SIGHUP at the end of the play), i.e. while the
+		// spotlight is being shut down.  Prefer a line that yields a point.
+		extra := g.Lines(c, 60, nums)
+		fs0 := intents(c, extra, nums)
+		final := map[string]*LineGen{}
+		finalItem := map[string]int{}
+		for _, a := range cast {
+			var fallback *LineGen
+			for k, it := range extra {
+				if it.Kind != "line" || it.Line.Actor != a || it.Line.Text == "" {
+					continue
+				}
+				fallback = it.Line
+				good := false
+				for _, f := range fs0 {
+					for _, pt := range f.Points {
+						if f.Actor == a && pt.Item == k {
+							good = true
+						}
+					}
+				}
+				if good {
+					final[a] = it.Line
+				}
+			}
+			if final[a] == nil {
+				final[a] = fallback
+			}
+			if final[a] == nil {
+				final[a] = &LineGen{Actor: a, TsKind: "none", Body: []string{"bye"}, Text: "bye"}
+			}
+			finalItem[a] = len(items)
+			items = append(items, ItemGen{Kind: "line", Line: final[a]})
 		}
 		name := fmt.Sprintf("play%02d", i)
 		pdir := filepath.Join(dir, name)
@@ -83,51 +146,52 @@ func writeE2E(rng *rand.Rand, dir string, n int) {
 			lines[it.Line.Actor] = append(lines[it.Line.Actor], it.Line.Text)
 		}
 		spot := map[string]string{}
-		var castLines []string
-		var firstActor string
 		for _, r := range c.Roles {
-			spot[r.Name] = "sh " + abs + "/$me.sh; sleep 60"
-			for _, a := range r.Actors {
-				if firstActor == "" {
-					firstActor = a
-				}
-				castLines = append(castLines, a)
-				var data strings.Builder
-				for k, l := range lines[a] {
-					// blanks around some lines: the spotlight trims them
-					switch (k + len(a)) % 5 {
-					case 1:
-						data.WriteString("  " + l + " \n")
-					case 3:
-						data.WriteString(l + "\t\n")
-					default:
-						data.WriteString(l + "\n")
-					}
-					if k%7 == 3 {
-						data.WriteString("\n") // an empty line must not end the reading
-					}
-				}
-				data.WriteString("THE-END\n")
-				vh.WriteFile(pdir, a+".txt", data.String())
-				script := "echo start >> " + abs + "/" + a + ".started\n" +
-					"n=0\nwhile IFS= read -r l; do\n  n=$((n+1))\n" +
-					"  if [ $((n%2)) = 0 ]; then printf '%s\\n' \"$l\"; else printf '%s\\n' \"$l\" >&2; fi\n" +
-					"  if [ $((n%5)) = 0 ]; then sleep 0.02; fi\n" +
-					"done < " + abs + "/" + a + ".txt\n" +
-					"touch " + abs + "/" + a + ".done\n"
-				vh.WriteFile(pdir, a+".sh", script)
+			if r.Multi != "" {
+				spot[r.Name] = "exec sh " + abs + "/" + r.Multi + "$((i+1)).sh"
+			} else {
+				spot[r.Name] = "exec sh " + abs + "/$me.sh"
 			}
 		}
-		// config: every actor gets `with me=<actor>`
+		immediateOf := map[string]bool{}
+		for ai, a := range cast {
+			var data strings.Builder
+			ls := lines[a]
+			linger := "sleep 0.3; "
+			if immediate && ai%2 == 1 {
+				linger = ""
+				immediateOf[a] = true
+			}
+			for k, l := range ls[:len(ls)-1] {
+				// blanks around some lines: the spotlight trims them; a
+				// blank line is empty, or made of blanks only
+				switch (k + len(a)) % 5 {
+				case 1:
+					data.WriteString("  " + l + " \n")
+				case 3:
+					data.WriteString(l + "\t\n")
+				default:
+					data.WriteString(l + "\n")
+				}
+			}
+			vh.WriteFile(pdir, a+".txt", data.String())
+			vh.WriteFile(pdir, a+".final", ls[len(ls)-1]+"\n")
+			script := "trap 'echo hup >> " + abs + "/" + a + ".hup; cat " + abs + "/" + a + ".final; echo ok >> " + abs + "/" + a + ".hupdone; " + linger + "exit 0' HUP\n" +
+				"echo start >> " + abs + "/" + a + ".started\n" +
+				"n=0\nwhile IFS= read -r l; do\n  n=$((n+1))\n" +
+				"  if [ $((n%2)) = 0 ]; then printf '%s\\n' \"$l\"; else printf '%s\\n' \"$l\" >&2; fi\n" +
+				"  if [ $((n%5)) = 0 ]; then sleep 0.02; fi\n" +
+				"done < " + abs + "/" + a + ".txt\n" +
+				"touch " + abs + "/" + a + ".done\n" +
+				"while true; do sleep 0.05; done\n"
+			vh.WriteFile(pdir, a+".sh", script)
+		}
 		// the scene `w` waits (at most 10 s) until every spotlight script has
 		// printed all its lines; three more beats let the readers catch up
-		wait := "i=0; while [ $i -lt 100 ]; do ok=1; for f in " + strings.Join(castLines, " ") + "; do [ -e " + abs + "/$f.done ] || ok=0; done; [ $ok = 1 ] && break; i=$((i+1)); sleep 0.1; done"
+		firstActor := cast[0]
+		wait := "i=0; while [ $i -lt 100 ]; do ok=1; for f in " + strings.Join(cast, " ") + "; do [ -e " + abs + "/$f.done ] || ok=0; done; [ $ok = 1 ] && break; i=$((i+1)); sleep 0.1; done"
 		text := c.Text(spot, "script\n  tempo 100ms\n  scene a entails for "+firstActor+": noop\n  scene w entails for "+firstActor+": wait\n  storyline a..w...a\nend\n")
 		text = strings.Replace(text, "  :noop true\n", "  :noop true\n  :wait "+wait+"\n", -1)
-		for _, a := range castLines {
-			r := c.roleOf(a)
-			text = strings.Replace(text, "  "+a+" plays "+r.Name+"\n", "  "+a+" plays "+r.Name+" with me="+a+"\n", 1)
-		}
 		vh.WriteFile(pdir, "play.cfg", text)
 		var exp []E2EFile
 		for _, f := range intents(c, items, nums) {
@@ -149,7 +213,7 @@ func writeE2E(rng *rand.Rand, dir string, n int) {
 			}
 			exp = append(exp, ef)
 		}
-		plays = append(plays, E2EPlay{Name: name, Cfg: text, Actors: castLines, Lines: lines, Expect: exp})
+		plays = append(plays, E2EPlay{Name: name, Cfg: text, Actors: cast, FinalItem: finalItem, Immediate: immediateOf, Lines: lines, Expect: exp})
 	}
 	vh.WriteJSON(dir, "plays.json", plays)
 }
@@ -226,6 +290,74 @@ func checkE2E(dir, out string) {
 		}
 		if !startsOK {
 			stats["plays-with-a-spotlight-not-started-exactly-once"]++
+		}
+		// the last word: expected iff the SIGHUP handler is known to have
+		// written it into the pipe (it then ran to its end before the 2 s
+		// grace period was over)
+		ambiguous := false
+		for _, a := range p.Actors {
+			_, e1 := os.Stat(filepath.Join(pdir, a+".hup"))
+			_, e2 := os.Stat(filepath.Join(pdir, a+".hupdone"))
+			if e2 == nil {
+				stats["last-words-printed"]++
+				continue
+			}
+			if e1 == nil {
+				ambiguous = true
+				continue
+			}
+			stats["last-words-not-printed"]++
+			for fi := range p.Expect {
+				if p.Expect[fi].Actor != a {
+					continue
+				}
+				var keep []E2EPoint
+				for _, pt := range p.Expect[fi].Points {
+					if pt.Item != p.FinalItem[a] {
+						keep = append(keep, pt)
+					}
+				}
+				p.Expect[fi].Points = keep
+			}
+		}
+		if ambiguous && startsOK && run.Exit == 0 {
+			stats["inconclusive-handler-cut-short"]++
+			continue
+		}
+		// a last line printed immediately before the spotlight process is
+		// gone, and nothing else, missing: its own signature
+		var lostLast []string
+		for _, a := range p.Actors {
+			if !p.Immediate[a] {
+				continue
+			}
+			lost, other := false, false
+			for fi := range p.Expect {
+				f := &p.Expect[fi]
+				if f.Actor != a || len(f.Points) == 0 || f.Points[len(f.Points)-1].Item != p.FinalItem[a] {
+					continue
+				}
+				for _, w := range f.Watchers {
+					n := len(rows[FileKey{w, f.Actor, f.Sig}])
+					if n == len(f.Points)-1 {
+						lost = true
+					} else {
+						other = true
+					}
+				}
+			}
+			if lost && !other {
+				lostLast = append(lostLast, a)
+				for fi := range p.Expect {
+					f := &p.Expect[fi]
+					if f.Actor == a && len(f.Points) > 0 && f.Points[len(f.Points)-1].Item == p.FinalItem[a] {
+						f.Points = f.Points[:len(f.Points)-1]
+					}
+				}
+			}
+		}
+		if len(lostLast) > 0 {
+			stats["plays-with-a-lost-last-line"]++
 		}
 		if !complete && startsOK && run.Exit == 0 {
 			// every script started once but one did not get to its end (or
@@ -306,7 +438,7 @@ func checkE2E(dir, out string) {
 		itemsV = append(itemsV, fmt.Sprintf("{| k_cfg := {| c_members := []; c_watchers := []; c_init := [] |};\n     k_cast := [];\n     k_items := [];\n     k_events := [];\n     k_brackets := [%s];\n     k_files := [%s];\n     k_status := %d;\n     k_nums := [];\n     k_epoch := 0%%Z;\n     k_tslog := [];\n     k_intent := [%s] |}",
 			strings.Join(brV, "; "), strings.Join(fileV, ";\n       "), status, strings.Join(intV, ";\n       ")))
 		cases = append(cases, map[string]interface{}{"name": p.Name, "config": p.Cfg, "lines": p.Lines, "csv": csv,
-			"exit": run.Exit, "wall_s": run.WallS, "output_tail": run.Tail, "expected": p.Expect, "play_start_offset_ns": off, "spotlight_starts": starts})
+			"exit": run.Exit, "wall_s": run.WallS, "output_tail": run.Tail, "expected": p.Expect, "play_start_offset_ns": off, "spotlight_starts": starts, "lost_last_lines": lostLast, "immediate_exit_actors": p.Immediate})
 		stats["plays"]++
 		stats["csv-rows"] += nRows
 		stats["expected-rows"] += nPoints
